@@ -173,6 +173,17 @@ class SimLoop(base_events.BaseEventLoop):
         for hook in self.step_hooks:
             hook()
 
+    def create_task(self, coro, **kw):
+        """Tasks remember the root task they descend from, so a harness running several
+        top-level activities on one loop can tell whose background tasks are whose."""
+        t = super().create_task(coro, **kw)
+        try:
+            cur = asyncio.current_task(self)
+        except RuntimeError:
+            cur = None
+        t.sim_root = getattr(cur, 'sim_root', None) or cur or t
+        return t
+
     # -- running --------------------------------------------------------------
     def run_main(self, coro, name='main'):
         """Run until the main task finishes or the system is quiescent.
